@@ -99,6 +99,7 @@ PROPS = {
         ],
     },
     "C02": {
+        "traced_too": True,
         'coq': 'Properties/C02.v',
         'streams': ['loop', 'loopadv'],
         'level_text': "C02_create / C02_measure characterise one dispatch step against the flat (address, flow id) -> handler view for every state, message, user behaviour and send-failure pattern (fresh handler per create with the message's details, replaced handler dropped without close, measurement delivered to exactly the bound handler with uid and values intact, empty measurement closes once and unbinds, unknown datapath/flow: nothing); C02_handlers_distinct gives distinct, never-reused handler identities in every reachable state.",
@@ -108,15 +109,17 @@ PROPS = {
         "nontrivial": NT_C02,
     },
     "C05": {
+        "traced_too": True,
         'coq': 'Properties/C05.v',
         'streams': ['loop', 'loopadv'],
-        'level_text': 'C05_use_after_install proves over the interleaved trace of every history (all user behaviours, all send-failure patterns) that each change-program names a uid installed at its destination since that destination last said ready; C05_ready_installs_all / C05_create_installs_first give the exact install policy.',
+        'level_text': 'C05_use_after_install proves over the interleaved trace of every history (all user behaviours, all send-failure patterns) that each change-program names a uid installed at its destination since that destination last said ready; C05_ready_installs_all / C05_create_installs_first give the exact install policy. C05_partial_program_set_never_runs (Runtime/StartFacts.v): when one offered program does not compile or its install message cannot be encoded, the run ends with an error before the receive loop and its only effect is closing the transport: a set is installed whole or the runtime does not run.',
         'level_note': 'Coq kernel; no axioms; hand-written model of run_inner (src/run.rs), Datapath/Report (src/lib.rs) and Backend::next, with user callbacks and send failures as arbitrary oracles; tied to the code by running RunBuilder::run inline over a scripted Ipc with recording algorithms on the same histories (model and implementation logs compared after sorting hash-ordered DROP/INSTALL batches and renaming uids through the install messages). Assumes handles are used only inside the three callbacks.',
         'rule': 'structured random histories over 3 addresses x 4 flow ids: ready / create (9 algorithm names incl. prefixes, extensions, empty, 63 bytes) / measurement for live and dead flows / close / unknown, 1-4 messages per datagram (occasionally 10-14, exceeding the 1024-byte buffer), restarts, re-creates, receive errors, stop requests; 0-3 additional algorithms with duplicate names and absent instances, 6 table programs incl. a duplicate name and an uncompilable one; callbacks issue set_program/update_field/get_field lists; non-trivial = at least one change-program sent',
         'assumptions': ["a flow's datapath handle is used only inside new_flow / on_report / close (not from Drop, not smuggled out)", 'program uids are canonicalised through the install messages; DROP and INSTALL batches are sorted before comparison (HashMap order)'],
         "nontrivial": NT_C05,
     },
     "C09": {
+        "traced_too": True,
         'coq': 'Properties/C09.v',
         'streams': ['loop', 'loopadv', 'isolate'],
         'level_text': "C09_frame: a message from address a leaves every binding (b, s), b<>a, untouched; C09_restart_discards_own_flows_only; C09_handle_origin (invariant over all histories) and C09_commands_go_to_origin: every handle command is sent to the creating address with the flow's id.",
@@ -126,6 +129,7 @@ PROPS = {
         "nontrivial": NT_C09,
     },
     "C11": {
+        "traced_too": True,
         'coq': 'Properties/C11.v',
         'streams': ['loop'],
         'level_text': "C11_set_program_refuses / C11_update_field_refuses / C11_set_program_succeeds / C11_set_program_accepts: a command succeeds iff the program is known and every field is controllable; refusal transmits nothing, success transmits exactly one message with the flow id, the program's uid and the pairs in order.",
@@ -135,6 +139,7 @@ PROPS = {
         "nontrivial": NT_C11,
     },
     "C12": {
+        "traced_too": True,
         'coq': 'Properties/C12.v',
         'streams': ['loop'],
         'level_text': 'C12_stale / C12_same_program / C12_value_from_own_slot_only / C12_too_short: a complete case split of Report::get_field; a value comes only from the slot the scope gives that name.',
@@ -144,6 +149,7 @@ PROPS = {
         "nontrivial": NT_C12,
     },
     "C15": {
+        "traced_too": True,
         'coq': 'Properties/C15.v',
         'streams': ['loop'],
         'level_text': 'C15_default_when_no_match / C15_most_recent_match_wins / C15_create_uses_pick specify sealed::Pick; C15_every_offered_program_is_compiled / C15_compiled_program_was_offered specify the program union.',
@@ -153,6 +159,7 @@ PROPS = {
         "nontrivial": NT_C15,
     },
     "C16": {
+        "traced_too": True,
         'coq': 'Properties/C16.v',
         'streams': ['loopadv', 'ignore', 'unixapi'],
         'level_text': 'C16_run_never_panics: for every script of arbitrary datagrams, receive errors, stop requests, user behaviour and send-failure pattern the run returns Ok or Err (no panic, fuel suffices); C16_ignored_inert: ignored messages return the state unchanged.',
@@ -162,6 +169,7 @@ PROPS = {
         "nontrivial": NT_C16,
     },
     "C18": {
+        "traced_too": True,
         'coq': 'Properties/C18.v',
         'streams': ['loopadv', 'apiorder', 'unixapi'],
         'level_text': 'PARTIAL. C18_stopped_ends / C18_stop_request_ends / C18_dead_channel_is_error / C18_close_is_last prove the flag logic of get_next_read and the end of run_inner on the model. Wall-clock latency and the Arc reference count cannot be exhibited by the model; the correspondence run observes recv calls after the stop (0), Arc::strong_count (back to 1), the close call and the result.',
@@ -191,7 +199,10 @@ PROPS = {
         "coq": "Properties/C13.v",
         "level_text": "C13_declared_slots proves for every declaration list with names distinct from each other and from the built-ins that report "
                       "variable k gets report slot k (exactly 0..n-1), control variable k control slot k, with declared volatility and initial value, "
-                      "built-ins untouched; C13_builtin_primitives/implicits pin the ABI by computation.",
+                      "built-ins untouched; C13_builtin_primitives/implicits pin the ABI by computation. C13_overrides* (Lang/OverrideFacts.v): compile-time overrides change the initial value of exactly the named "
+                      "variable and allocate nothing; C13_names_keep_their_registers through the lowering of any events. C13_only_locals_wait_for_a_type / C13_declared_variables_keep_declared_types (Lang/DeclTypes.v): "
+                      "in every scope lang::compile returns, for every source text and overrides, a register whose type is an unresolved name is a local and the name is a local's, so a declared variable "
+                      "carries its declared type and initial value or none (rings of untyped locals included; example proved).",
         "level_note": "Coq kernel; no axioms; hand-written character-level model of the nom parsers (src/lang/ast.rs, prog.rs), of Scope/compile_expr/compile_prog (datapath.rs), lang::compile (mod.rs) and the image encoder (serialize.rs); tied to the code by compiling the same byte strings with portus::lang and with the extracted model and comparing image bytes and the scope's answer (class, index, volatility, type and initial value) for every name occurring in the text.",
         "streams": ["limits", "compile"],
         "rule": "declaration lists with 0/1/15/16/17 report x 0/1/15/16/17 control x 0/1/5/6/7 local variables in three order styles (Report block, "
@@ -233,6 +244,7 @@ PROPS = {
                         "libccp reads the update-fields count as one signed byte and accepts at most 222 updates: beyond that it refuses the message (observed, modelled)"],
     },
     "C17": {
+        "traced_too": True,
         "coq": "Properties/C17.v",
         "level_text": "PARTIAL. C17_unique proves for every number of threads, compilations and every interleaving of their atomic operations that the uids handed out are "
                       "pairwise distinct; the operation list it is about (gen/UidOps.v) is regenerated on every run from the body of get_next_uid! by a small translator, and the "
@@ -250,6 +262,8 @@ PROPS = {
         "coq": "Properties/C19.v",
         "level_text": "PARTIAL. C19_fifo_exactly_once / C19_per_sender_prefix prove, over an abstract reliable FIFO, that for every interleaving of sends and receives the received datagrams "
                       "followed by the queued ones are exactly the sent ones in order (intact, once, boundaries kept); C19_nonblocking_empty_is_error, C19_oversized_is_error, C19_dead_handle_is_error. "
+                      "C19_boundaries_survive_to_the_decoder (Conc/TransportCursor.v) composes the transport with the model of Backend::next: for every interleaving the receive path never panics and yields "
+                      "exactly what the datagrams received so far decode to, each on its own and tagged with its sender, those datagrams being a prefix of the ones sent (example with two senders proved). "
                       "That crossbeam's channel and the kernel's Unix datagram queue are such FIFOs cannot be exhibited by the model: the stress stream runs real threads and sockets "
                       "(1-4 senders, bursts of thousands, sizes 13..1024, per-sender sequence numbers and checksums, sender address check, non-blocking empty receive, oversized datagrams, dead handle).",
         "level_note": "Coq kernel; no axioms; the FIFO hypothesis (crossbeam unbounded channel, AF_UNIX SOCK_DGRAM) is assumed by the model and observed by the run.",
@@ -262,6 +276,7 @@ PROPS = {
                         "a full Unix socket queue makes send fail (kernel flow control); the sender retries: not counted as loss"],
     },
     "C01": {
+        "traced_too": True,
         "coq": "Properties/C01.v",
         "level_text": "PROVED end to end on the model: C01_compile_correct. For every source text in the property's quantifier (accepted by the compiler and by the datapath, well typed under "
                       "the documented discipline, no operand overwritten before use, no legacy-infinity initial value) and every finite sequence of 64-bit measurement vectors, the image the compiler model "
@@ -321,3 +336,31 @@ PROPS = {
         "assumptions": ["names do not begin with true/false (the atom parser takes those as a literal followed by junk): such programs are rejected in every layout"],
     },
 }
+
+# ---- what the streams gained in the sixth round of seeded changes (appended to each rule text)
+_R6 = {
+    "C01": "the model side of every case is the whole pipeline (the install message rebuilt from the source by the compiler model, run on the libccp model) against portus' message on the real libccp; fixed cases with binds as operands and binds whose target is itself a bind",
+    "C02": "loopadv: the last message of a datagram loses its tail 1 time in 12 (CUT symbols)",
+    "C05": "a table program that compiles but whose install message cannot be encoded (a runtime offered it refuses to start; scripts select it)",
+    "C06": "boolean control variables updated to 0..3 and to arbitrary values",
+    "C08": "receive buffers and datagrams of 66 000, 70 000 and 131 200 bytes full of whole messages (sizes that do not fit 16 bits)",
+    "C10": "chains and rings of 1..5 undeclared locals bound to one another and then given a value (type resolution must end); multi-byte characters at every offset around likely cut points of the unparsed remainder",
+    "C11": "field names qualified (Control.x, Report.x, Flow.x), with a trailing dot, in upper case",
+    "C12": "reports whose uid is the scope's plus 1..3 times 65536",
+    "C13": "a declared variable never carries a name as its type (declarations initialised with another variable's name, then bound)",
+    "C15": "requested names that are not registered but agree with a registered one under nine common 32-bit digests, and anagrams of registered names",
+    "C16": "unixapi chan-run: the runtime on chan::Socket<Nonblocking> over a backlog queued before it starts, with and without datagrams it must ignore (undecodable, unknown type with stray bytes, unknown type, measurement for no flow)",
+    "C18": "unixapi: stop while a peer that is not bound to a path keeps sending (blocking and non-blocking socket)",
+    "C19": "c19: a backlog queued on the polling channel transport comes out one datagram per receive; unixapi: sender bound to a relative path, to a path that is not UTF-8, to an absolute path: reported verbatim",
+    "C20": "comment texts that are empty, blank, look like code, or contain a lone carriage return",
+}
+_TRACED = ("every stream is run a second time under a tracing subscriber that enables every level and call site "
+           "(HARNESS_TRACE=1, the `traced` profile): the library's log statements are evaluated and the results must not change")
+for _pid, _cfg in PROPS.items():
+    _add = []
+    if _pid in _R6:
+        _add.append(_R6[_pid])
+    if _cfg.get("traced_too"):
+        _add.append(_TRACED)
+    if _add:
+        _cfg["rule"] = _cfg.get("rule", "") + "; also: " + "; ".join(_add)
